@@ -12,9 +12,12 @@
      dump     Rc  dst := src (same sharing)
               Rr  every listener found below dst.Servers[0] is redacted
               Rm  json.Marshal of the result
+              Rw  the marshalled bytes are handed to the connection (the handler's w.WriteHeader / w.Write)
    Intended design (Defects = {}): both operations work on storage of their own.  "SharedServers" is what the code under
    verification does: Servers[0] is one cell shared by the live configuration, the persist and the dump, Tw writes it and Rr
-   rewrites the listeners it finds there in place. *)
+   rewrites the listeners it finds there in place.  "ResponseInPooledBuffer": both operations marshal into buffers recycled
+   through one pool and the response bytes still live in such a buffer when they are written: a persist that marshals
+   between Rm and Rw (into a buffer large enough to be reused: an earlier persist has run) overwrites them. *)
 EXTENDS Integers, Sequences, FiniteSets, TLC, Json
 
 CONSTANTS Endpoints,   \* dump endpoints that go through redactedMosnConfig
@@ -25,12 +28,14 @@ VARIABLES pP, pD,      \* program counters of the persist and of the dump
           rewritten,   \* slices whose elements were replaced by redacted copies
           out,         \* what the persist produced: "none" | "real" | "redacted"
           resp,        \* what the response shows below mosn_config.servers: "none" | "clean" | "real"
+          made,        \* what the dump marshalled (Rm), before it is written
+          bufp,        \* the persist has marshalled since the dump marshalled (matters with pooled buffers only)
           prior, ep, sched
-vars == <<pP, pD, cell, rewritten, out, resp, prior, ep, sched>>
+vars == <<pP, pD, cell, rewritten, out, resp, made, bufp, prior, ep, sched>>
 
 Shared == "SharedServers" \in Defects
 
-Init == /\ pP = "start" /\ pD = "start" /\ rewritten = {} /\ out = "none" /\ resp = "none"
+Init == /\ pP = "start" /\ pD = "start" /\ rewritten = {} /\ out = "none" /\ resp = "none" /\ made = "none" /\ bufp = FALSE
         /\ prior \in BOOLEAN                       \* an earlier, quiet persist has already run
         /\ cell = IF prior /\ Shared THEN "old" ELSE "none"
         /\ ep \in Endpoints /\ sched = <<>>
@@ -38,24 +43,29 @@ Init == /\ pP = "start" /\ pD = "start" /\ rewritten = {} /\ out = "none" /\ res
 Step(s) == sched' = Append(sched, s)
 
 Ts == /\ pP = "start" /\ pP' = "snap" /\ Step("Ts")
-      /\ UNCHANGED <<pD, cell, rewritten, out, resp, prior, ep>>
+      /\ UNCHANGED <<pD, cell, rewritten, out, resp, made, bufp, prior, ep>>
 Tw == /\ pP = "snap" /\ pP' = "stored" /\ Step("Tw")
       /\ cell' = IF Shared THEN "new" ELSE cell
-      /\ UNCHANGED <<pD, rewritten, out, resp, prior, ep>>
+      /\ UNCHANGED <<pD, rewritten, out, resp, made, bufp, prior, ep>>
 Tm == /\ pP = "stored" /\ pP' = "done" /\ Step("Tm")
       /\ out' = IF Shared /\ cell \in rewritten THEN "redacted" ELSE "real"
-      /\ UNCHANGED <<pD, cell, rewritten, resp, prior, ep>>
+      /\ /\ bufp' = (pD = "marshaled")
+      /\ UNCHANGED <<pD, cell, rewritten, resp, made, prior, ep>>
 
 Rc == /\ pD = "start" /\ pD' = "copied" /\ Step("Rc")
-      /\ UNCHANGED <<pP, cell, rewritten, out, resp, prior, ep>>
+      /\ UNCHANGED <<pP, cell, rewritten, out, resp, made, bufp, prior, ep>>
 Rr == /\ pD = "copied" /\ pD' = "redone" /\ Step("Rr")
       /\ rewritten' = IF Shared /\ cell # "none" THEN rewritten \cup {cell} ELSE rewritten
-      /\ UNCHANGED <<pP, cell, out, resp, prior, ep>>
-Rm == /\ pD = "redone" /\ pD' = "done" /\ Step("Rm")
-      /\ resp' = IF Shared /\ cell # "none" /\ cell \notin rewritten THEN "real" ELSE "clean"
-      /\ UNCHANGED <<pP, cell, rewritten, out, prior, ep>>
+      /\ UNCHANGED <<pP, cell, out, resp, made, bufp, prior, ep>>
+Rm == /\ pD = "redone" /\ pD' = "marshaled" /\ Step("Rm")
+      /\ made' = IF Shared /\ cell # "none" /\ cell \notin rewritten THEN "real" ELSE "clean"
+      /\ bufp' = FALSE
+      /\ UNCHANGED <<pP, cell, rewritten, out, resp, prior, ep>>
+Rw == /\ pD = "marshaled" /\ pD' = "done" /\ Step("Rw")
+      /\ resp' = IF "ResponseInPooledBuffer" \in Defects /\ bufp /\ prior THEN "real" ELSE made
+      /\ UNCHANGED <<pP, cell, rewritten, out, made, bufp, prior, ep>>
 
-Next == Ts \/ Tw \/ Tm \/ Rc \/ Rr \/ Rm
+Next == Ts \/ Tw \/ Tm \/ Rc \/ Rr \/ Rm \/ Rw
 Spec == Init /\ [][Next]_vars
 
 (* ---------- C20 ---------- *)
